@@ -58,6 +58,7 @@ import (
 	"fmt"
 	"math"
 	"os"
+	"runtime/debug"
 	"runtime/pprof"
 	"regexp"
 	"sort"
@@ -661,7 +662,11 @@ func urlsAgree(got, want []string) (string, bool) {
 	return "", truncated
 }
 
-var digitsRe = regexp.MustCompile(`[0-9]+`)
+var (
+	digitsRe = regexp.MustCompile(`[0-9]+`)
+	quotedRe = regexp.MustCompile(`"[^"]*"`)
+	digestRe = regexp.MustCompile(`[a-z0-9]+:[0-9a-fA-F]{16,}`)
+)
 
 func keyClass(k string) string {
 	if strings.HasPrefix(k, urlsPrefix) {
@@ -672,8 +677,11 @@ func keyClass(k string) string {
 
 func errClass(err error) string {
 	s := err.Error()
-	s = regexp.MustCompile(`"[^"]*"`).ReplaceAllString(s, `"…"`)
-	s = regexp.MustCompile(`[a-z0-9]+:[0-9a-fA-F]{16,}`).ReplaceAllString(s, "<digest>")
+	if len(s) > 400 {
+		s = s[:400]
+	}
+	s = quotedRe.ReplaceAllString(s, `"…"`)
+	s = digestRe.ReplaceAllString(s, "<digest>")
 	s = digitsRe.ReplaceAllString(s, "N")
 	if len(s) > 120 {
 		s = s[:120] + "…"
@@ -826,7 +834,7 @@ func (c *checker) checkCase(caseIdx int, m *mcase, rng *prng.R) {
 	if exercised && nLayer >= 2 {
 		r.NonTrivial(desc)
 	}
-	if caseIdx < 3 {
+	if (caseIdx >= 0 && caseIdx < 3) || caseIdx == -1 || caseIdx == -3 || caseIdx == -5 || caseIdx == -6 {
 		r.Sample(map[string]any{"case": caseIdx, "name": m.Name, "manifest": trunc(desc, 1500), "shape": m.Shape})
 	}
 }
@@ -1004,8 +1012,10 @@ func (c *checker) checkLayer(fl *flavour, reader source.GetSources, m *mcase, ki
 					}
 				}
 			}
+			// "misaligned" = behind a non-layer child the neighbour got nothing or ANOTHER layer's
+			// list (an index shift); anything else (garbled, reordered, holes) is "wrong".
 			clause := "neighbour-urls-wrong"
-			if nonLayerSeen {
+			if nonLayerSeen && whose != "no layer of the manifest" {
 				clause = "neighbour-urls-misaligned"
 			}
 			key := fl.name + ":" + clause + ":" + scenario
@@ -1045,7 +1055,7 @@ func labelDump(l map[string]string) map[string]string {
 // clause M: labels removed or corrupted
 
 func corruptValue(fl *flavour, key, old string, rng *prng.R) string {
-	otherDigest := digest.FromString(fmt.Sprint(rng.U64())).String()
+	otherDigest := fmt.Sprintf("sha256:%016x%016x%016x%016x", rng.U64(), rng.U64(), rng.U64(), rng.U64())
 	switch {
 	case key == fl.refKey:
 		switch rng.Intn(12) {
@@ -1137,7 +1147,7 @@ func corruptValue(fl *flavour, key, old string, rng *prng.R) string {
 }
 
 // judgeMutated applies clause M to one mutated label map.
-func (c *checker) judgeMutated(fl *flavour, reader source.GetSources, l map[string]string, what string, replay map[string]any) {
+func (c *checker) judgeMutated(fl *flavour, reader source.GetSources, l map[string]string, what []string, replay map[string]any) {
 	r := c.r
 	r.Count("mutated_label_sets", 1)
 	refV, refHas := l[fl.refKey]
@@ -1165,7 +1175,7 @@ func (c *checker) judgeMutated(fl *flavour, reader source.GetSources, l map[stri
 	var err error
 	panicked, pv, stack := vf.Recover(func() { srcs, err = reader(l) })
 	rp := func() map[string]any {
-		return withKV(withKV(replay, "mutation", what), "mutated_mandatory_labels", map[string]any{fl.refKey: trunc(refV, 300), fl.digestKey: trunc(digV, 200), "ref_present": refHas, "digest_present": digHas})
+		return withKV(withKV(replay, "mutation", strings.Join(what, "; ")), "mutated_mandatory_labels", map[string]any{fl.refKey: trunc(refV, 300), fl.digestKey: trunc(digV, 200), "ref_present": refHas, "digest_present": digHas})
 	}
 	if panicked {
 		r.Violate("panic:"+fl.name+":reader@"+crashSite(stack), fmt.Sprintf("reader panicked on mutated labels: %v", pv), withKV(rp(), "stack", stack))
@@ -1221,11 +1231,12 @@ func (c *checker) mutate(fl *flavour, reader source.GetSources, lbls map[string]
 			present = append(present, k)
 		}
 	}
+	// work on one private copy, mutated in place and restored after each judgement
+	l := make(map[string]string, len(lbls))
+	for k, v := range lbls {
+		l[k] = v
+	}
 	apply := func(subset []string, mode uint) {
-		l := make(map[string]string, len(lbls))
-		for k, v := range lbls {
-			l[k] = v
-		}
 		var what []string
 		for i, k := range subset {
 			if mode&(1<<uint(i)) == 0 {
@@ -1233,10 +1244,13 @@ func (c *checker) mutate(fl *flavour, reader source.GetSources, lbls map[string]
 				what = append(what, "remove "+keyClass(k))
 			} else {
 				l[k] = corruptValue(fl, k, lbls[k], rng)
-				what = append(what, fmt.Sprintf("corrupt %s -> %q", keyClass(k), trunc(l[k], 80)))
+				what = append(what, "corrupt "+keyClass(k)+" -> "+strconv.Quote(trunc(l[k], 80)))
 			}
 		}
-		c.judgeMutated(fl, reader, l, strings.Join(what, "; "), replay)
+		c.judgeMutated(fl, reader, l, what, replay)
+		for _, k := range subset {
+			l[k] = lbls[k]
+		}
 	}
 	n := len(present)
 	if !exhaustive {
@@ -1293,6 +1307,7 @@ func main() {
 }
 
 func body(r *vf.Run) {
+	debug.SetGCPercent(400) // the writers under test build labels by repeated string concatenation: mostly garbage
 	if r.Child == "l3" {
 		l3Child(r)
 		return
@@ -1309,7 +1324,7 @@ func body(r *vf.Run) {
 	}
 	// The code under test is purely sequential and stateless; the harness spreads the
 	// (independent, individually seeded) cases over a few workers for throughput only.
-	n := r.N(400, 30000)
+	n := r.N(400, 12000)
 	const workers = 6
 	var wg sync.WaitGroup
 	var next atomic.Int64
